@@ -96,6 +96,8 @@ Build ==
     /\ built = "no" /\ lines # <<>>
     /\ built' = IF AllBalanced THEN "yes" ELSE "rejected"
     /\ hist' = Append(hist, [a |-> "Build", text |-> Joined(lines), accepted |-> AllBalanced,
+                             \* TextRoundTrip: printing the admitted system gives back the text it was read from
+                             printed |-> IF AllBalanced THEN Joined(lines) ELSE "",
                              substances |-> { Sp[s].txt : s \in Present },
                              components |-> IF AllBalanced THEN { { Sp[s].txt : s \in UNION { SpeciesOf(lines[i].t) : i \in g } }
                                                                   : g \in Components } ELSE {}])
